@@ -322,19 +322,20 @@ def stepE (s0 : Sys) (op : AOp) : Option (Sys × Emit) :=
             if clear then
               some (upd i (f.importPositions [] ((rows.zip cols).map (fun rc => pos rc.1 rc.2))))
             else
-              -- bulkImportMutex: last row per column wins; existing other rows are cleared
+              -- bulkImportMutex (as repaired on main): the last row given for a column wins; a column
+              -- that already holds that row is skipped, another existing row is cleared
               let pairs := rows.zip cols
-              let bad := pairs.any (fun rc => (rowsOf f.bits rc.2).length > 1)
+              let colsD := (pairs.map (·.2 % shardWidth)).eraseDups
+              let want := colsD.filterMap (fun c => (pairs.reverse.find? (fun rc => rc.2 % shardWidth = c)).map (fun rc => (rc.1, c)))
+              let bad := want.any (fun rc => (rowsOf f.bits rc.2).length > 1)
               if bad then some ({ s with err := true }, .nothing)
               else
-                let toClear := (pairs.filterMap (fun rc =>
+                let live := want.filter (fun rc => rowsOf f.bits rc.2 != [rc.1])
+                let toSet := live.map (fun rc => pos rc.1 rc.2)
+                let toClear := live.filterMap (fun rc =>
                   match rowsOf f.bits rc.2 with
-                  | [r0] => if r0 = rc.1 then none else some (pos r0 rc.2)
-                  | _ => none))
-                let live := pairs.filter (fun rc => rowsOf f.bits rc.2 != [rc.1])
-                let colsD := (live.map (·.2 % shardWidth)).eraseDups
-                let toSet := colsD.filterMap (fun c =>
-                  (live.reverse.find? (fun rc => rc.2 % shardWidth = c)).map (fun rc => pos rc.1 rc.2))
+                  | [r0] => some (pos r0 rc.2)
+                  | _ => none)
                 some (upd i (f.importPositions toSet toClear)))
   | .impval i cols vals =>
       (s.frags[i]?).bind (fun f =>
